@@ -2,6 +2,7 @@ package main
 
 import (
 	"fmt"
+	"go/token"
 	"go/types"
 	"sort"
 	"strings"
@@ -837,4 +838,189 @@ func runSiblingChoice(p *Program, r *RuleResult) {
 				fmt.Sprintf("%s.%s and %s.%s are no longer the same function (%s): internal and external choice would be inferred/checked differently", A.Obj().Name(), name, B.Obj().Name(), name, diff))
 		}
 	}
+}
+
+// R-STICKY-FLAG (C08, C07, C01, C09): a per-element "found" flag is reset for every element.
+func init() {
+	register(&Rule{Name: "R-STICKY-FLAG", Min: 1,
+		Doc: "in the type library and the typechecker: a boolean that is carried around a loop (a phi at the loop header) and can come back from an earlier iteration as true is not what decides a branch inside that loop; a flag that is set by an inner search and tested per element must be re-initialised per element, otherwise the first hit satisfies every later element. Flags tested only after the loop (any/all accumulators) are fine",
+		Run: runStickyFlag})
+}
+
+func runStickyFlag(p *Program, r *RuleResult) {
+	nLoops, nFlags := 0, 0
+	for _, fn := range p.SrcFuncs {
+		if fn.Pkg == nil || !(fn.Pkg.Pkg.Path() == typesPkg || fn.Pkg.Pkg.Path() == processPkg) || fn.Blocks == nil {
+			continue
+		}
+		view := p.View(fn)
+		ord := 0
+		for _, l := range view.Loops() {
+			nLoops++
+			for _, in := range l.Header.Instrs {
+				ph, ok := in.(*ssa.Phi)
+				if !ok {
+					break
+				}
+				bt, ok := ph.Type().Underlying().(*types.Basic)
+				if !ok || bt.Kind() != types.Bool {
+					continue
+				}
+				// may a back edge deliver `true`?
+				var mayTrue func(v ssa.Value, seen map[ssa.Value]bool) bool
+				mayTrue = func(v ssa.Value, seen map[ssa.Value]bool) bool {
+					if seen[v] {
+						return false
+					}
+					seen[v] = true
+					switch x := v.(type) {
+					case *ssa.Const:
+						return x.Value != nil && x.Value.String() == "true"
+					case *ssa.Phi:
+						for _, e := range x.Edges {
+							if mayTrue(e, seen) {
+								return true
+							}
+						}
+						return false
+					}
+					return true // computed value: may be true
+				}
+				sticky := false
+				for i, e := range ph.Edges {
+					if l.Body[l.Header.Preds[i]] && e != ssa.Value(ph) && mayTrue(e, map[ssa.Value]bool{ph: true}) {
+						sticky = true
+					}
+				}
+				if !sticky {
+					continue
+				}
+				nFlags++
+				ord++
+				construct := fmt.Sprintf("loop-carried-flag#%d:%s", ord, ph.Comment)
+				// is it (or a phi of it inside the loop) a branch condition inside the loop?
+				bad := ""
+				seen := map[ssa.Value]bool{}
+				var uses func(v ssa.Value)
+				uses = func(v ssa.Value) {
+					if seen[v] || v.Referrers() == nil {
+						return
+					}
+					seen[v] = true
+					for _, u := range *v.Referrers() {
+						switch x := u.(type) {
+						case *ssa.If:
+							if l.Body[x.Block()] && x.Block() != l.Header {
+								bad = p.instrPos(x)
+								if bad == "" || bad == "-" {
+									bad = "block " + x.Block().Comment
+								}
+							}
+						case *ssa.Phi:
+							if l.Body[x.Block()] {
+								uses(x)
+							}
+						case *ssa.UnOp:
+							if x.Op == token.NOT {
+								uses(x)
+							}
+						}
+					}
+				}
+				uses(ph)
+				if bad != "" {
+					r.add(fnName(fn), construct, Violated, p.pos(ph.Pos()),
+						fmt.Sprintf("the flag %s keeps the value true from an earlier iteration and decides a branch inside the loop (%s): once one element has matched, every later element counts as matched", ph.Comment, bad))
+				} else {
+					r.add(fnName(fn), construct, Holds, p.pos(ph.Pos()), "carried around the loop but only tested after it")
+				}
+			}
+		}
+	}
+	r.count("loops examined", nLoops)
+	r.count("loop-carried boolean flags", nFlags)
+	// the expected number of findings is zero: what was scanned is the obligation
+	if nLoops >= 100 {
+		r.add("types+process", "loops-scanned", Holds, "", fmt.Sprintf("%d loops examined, %d loop-carried boolean flags", nLoops, nFlags))
+	} else {
+		r.add("types+process", "loops-scanned", Undecided, "", fmt.Sprintf("only %d loops found in the type library and the typechecker (at least 100 confirmed by hand): packages not loaded?", nLoops))
+	}
+}
+
+// R-COMPARE-DISTINCT (C08, C07, C01): a comparison compares two things.
+func init() {
+	register(&Rule{Name: "R-COMPARE-DISTINCT", Min: 80,
+		Doc: "every call of a first-party predicate over two values of the same type (type equality, name equality, mode comparisons: bool result, two operands of identical type, receiver included) is given two different operand expressions; comparing a value with itself makes the test vacuous",
+		Run: runCompareDistinct})
+}
+
+func runCompareDistinct(p *Program, r *RuleResult) {
+	n := 0
+	for _, fn := range p.SrcFuncs {
+		if fn.Pkg == nil || !(fn.Pkg.Pkg.Path() == typesPkg || fn.Pkg.Pkg.Path() == processPkg) || fn.Blocks == nil {
+			continue
+		}
+		ord := 0
+		for _, c := range p.callsIn(fn) {
+			com := c.Common()
+			var sig *types.Signature
+			var ops []ssa.Value
+			name := ""
+			if com.IsInvoke() {
+				sig = com.Method.Type().(*types.Signature)
+				ops = append([]ssa.Value{com.Value}, com.Args...)
+				name = com.Method.Name()
+			} else if sc := com.StaticCallee(); sc != nil && p.isFirstParty(sc) {
+				sig = sc.Signature
+				ops = com.Args
+				name = sc.Name()
+			} else {
+				continue
+			}
+			if sig.Results().Len() != 1 {
+				continue
+			}
+			if bt, ok := sig.Results().At(0).Type().Underlying().(*types.Basic); !ok || bt.Kind() != types.Bool {
+				continue
+			}
+			// two operands of identical static type among the first two / receiver+first
+			if len(ops) < 2 {
+				continue
+			}
+			a, b := ops[0], ops[1]
+			ta, tb := a.Type(), b.Type()
+			if pt, ok := ta.(*types.Pointer); ok && !types.Identical(ta, tb) {
+				ta = pt.Elem() // (*Name).Equal(Name)
+			}
+			if !types.Identical(ta, tb) {
+				continue
+			}
+			switch ta.Underlying().(type) {
+			case *types.Basic, *types.Map, *types.Slice:
+				continue // flags, contexts: not a comparison of two entities
+			}
+			n++
+			ord++
+			construct := fmt.Sprintf("%s#%d", name, ord)
+			ka, kb := exprKey(a), exprKey(b)
+			if ld, ok := a.(*ssa.UnOp); ok && ka == "" {
+				ka = exprKey(ld.X)
+			}
+			same := a == b || (ka != "" && ka == kb)
+			// receiver given as address of the same variable
+			if !same {
+				if al, ok := a.(*ssa.Alloc); ok {
+					if ld, ok := b.(*ssa.UnOp); ok && ld.X == ssa.Value(al) {
+						same = true
+					}
+				}
+			}
+			if same {
+				r.add(fnName(fn), construct, Violated, p.instrPos(c), fmt.Sprintf("%s is called with the same operand (%s) on both sides: the comparison cannot fail", name, displayKey(a)))
+			} else {
+				r.add(fnName(fn), construct, Holds, p.instrPos(c), "")
+			}
+		}
+	}
+	r.count("binary predicate calls", n)
 }
